@@ -84,6 +84,11 @@ fn run_op(m: &mut Machine, toks: &[&str]) -> String {
             m.pads.push(vec![0x5au8; n]);
             return "-".to_string();
         }
+        // answers differently if this process has already run at least <n> ops: a wrong answer that depends on the process history
+        "selftest_wrong_after" => {
+            let n: u64 = args.get(0).and_then(|x| x.parse().ok()).unwrap_or(0);
+            return if OPS_RUN.load(std::sync::atomic::Ordering::Relaxed) >= n { "X".to_string() } else { "-".to_string() };
+        }
         "selftest_sleep" => {
             let ms: u64 = args.get(0).and_then(|x| x.parse().ok()).unwrap_or(10);
             std::thread::sleep(std::time::Duration::from_millis(ms));
